@@ -364,10 +364,10 @@ class Open(State):
         if self.is_set_release_signal_from_peer():
             self.event_open_peer_disc()      
 
-        if self.is_set_release_signal_from_local():
+        elif self.is_set_release_signal_from_local():
             self.event_stop()
 
-        if self.has_send_queue_message():
+        elif self.has_send_queue_message():
             self.make_default_logging(queue="send")
 
             self.event_send_message()
